@@ -3,7 +3,10 @@
 Primitive level: every request of the C02 primitive stream is run a second time with all cluster values (buffer
 contents, supplied clusters, set_masks bounds) relabelled by a strictly increasing map — on the crate and on the Lean
 model (correspondence) — and the crate's relabelled trace is compared with its original trace after un-relabelling.
-Shape level: paired shape() calls through the public API (relabelled input + feature ranges; the three levels pairwise)."""
+Shape level: paired shape() calls through the public API (relabelled input + feature ranges; the three levels pairwise)
+on the corpus, on structured Hangul over 11 support variants and on generated AAT fonts with morx + feat.
+Shaper level: the Hangul preprocess hook at the three levels and the morx substitute hook under relabelling with gaps
+(both also as correspondence streams against the Lean models the C15 theorems are about)."""
 import re
 import vlib, bufgen, corpus, C02
 
@@ -205,7 +208,7 @@ def sig(glyphs, with_flags=True):
     return [(g[0],) + ((g[2],) if with_flags else ()) + g[3:] for g in glyphs]
 
 
-def shape_pairs(ctx, shim, r, ncases, ntexts):
+def corpus_pair_requests(r, ncases, ntexts):
     cases = r.shuffle(corpus.load())[:ncases]
     groups = []
     for fid, reg, cs in corpus.font_groups(cases):
@@ -235,18 +238,55 @@ def shape_pairs(ctx, shim, r, ncases, ntexts):
                 reqs.append(("levels", "mid-grapheme-ranges" if (ranged and not aligned) else "aligned", None, cl, None,
                              mk(cl, feats, 0), mk(cl, feats, 1), mk(cl, feats, 2)))
         groups.append((reg, reqs))
+    return groups
+
+
+def _font_name(reg):
+    reg = reg[0] if isinstance(reg, list) else reg
+    t = reg.split()
+    return t[2] if t[0] == "fontfile" else "synthetic:" + " ".join(t[:3])[:60]
+
+
+def shape_pairs(ctx, shim, r, ncases, ntexts):
+    return eval_pairs(ctx, shim, corpus_pair_requests(r, ncases, ntexts))
+
+
+def _finite_bounds(q):
+    t = q.split()[7]
+    out = set()
+    if t != "-":
+        for x in t.split(","):
+            _, _, a, b = x.split(":")
+            out |= {int(v) for v in (a, b) if int(v) not in (0, U32MAX)}
+    return out
+
+
+def eval_pairs(ctx, shim, groups, gen=None, what_relabel=None, what_levels=None, runtime_clusters=False):
+    """groups: [(font registration line(s), [request tuples])].  A request tuple is
+         ("relabel", map name, f, input clusters, ranged?, request, relabelled request)   or
+         ("levels", "aligned" | "mid-grapheme-ranges", None, input clusters, None, request@0, request@1, request@2).
+    gen: name of a structured generator; its pairs are judged like the corpus pairs and accounted under
+    shape-relabel/<gen>, shape-levels/<gen>.
+    runtime_clusters (AAT): morx looks a glyph's feature range up by the cluster the glyph carries WHEN the subtable runs, so
+    a range bound that falls inside a cluster which an earlier subtable merged at levels 0/1 (rearrangement, ligature)
+    selects different glyphs at level 2.  Such a bound lies inside a cluster, like a bound inside a grapheme: the levels
+    triple is then counted as `mid-cluster-ranges` and reported separately (decided from the level-0 reply: the bound is
+    an input cluster value that no level-0 output glyph carries).  A 5th field "conflict" of a relabel tuple marks
+    requests with two overlapping, contradicting settings of one AAT feature (see aat_pair_requests): counted and reported
+    separately as well."""
+    sfx = "/" + gen if gen else ""
     lines = []
     for reg, reqs in groups:
-        g = [reg]
+        g = list(reg) if isinstance(reg, list) else [reg]
         for q in reqs:
             g += list(q[5:])
         lines.append(g)
     outs = vlib.run_groups(shim, lines, timeout=1200)
     stats = {"relabel": 0, "relabel-nontrivial": 0, "relabel-ranged": 0, "levels": 0, "levels-nontrivial": 0,
-             "levels-mid-grapheme": 0, "crashed": 0}
+             "levels-mid-grapheme": 0, "crashed": 0}   # levels-mid-grapheme also counts mid-cluster-ranges (AAT)
     found = {}
     for (reg, reqs), o in zip(groups, outs):
-        k = 1
+        k = len(reg) if isinstance(reg, list) else 1
         for q in reqs:
             n = len(q) - 5
             reps = o[k:k + n]; k += n
@@ -262,11 +302,14 @@ def shape_pairs(ctx, shim, r, ncases, ntexts):
                 if len(gls[0]) > 1: stats["relabel-nontrivial"] += 1
                 if ranged: stats["relabel-ranged"] += 1
                 want = [(g[0], f(g[1])) + g[2:] for g in gls[0]]
+                if ranged == "conflict": stats["relabel-conflicting-settings"] = stats.get("relabel-conflicting-settings", 0) + 1
                 if want != gls[1]:
                     what = "glyphs/positions/flags" if sig(gls[0]) != sig(gls[1]) else "cluster values"
-                    found.setdefault(("relabel", what), []).append((len(qa), reg, q, reps, f"map {name}"))
+                    found.setdefault(("relabel-conflict" if ranged == "conflict" else "relabel", what), []).append((len(qa), reg, q, reps, f"map {name}"))
             else:
                 _, kind, _, cl, _, q0, q1, q2 = q
+                if runtime_clusters and kind == "aligned" and not _finite_bounds(q0) <= {g[1] for g in gls[0]}:
+                    kind = "mid-cluster-ranges"
                 stats["levels"] += 1
                 if len(gls[0]) > 1: stats["levels-nontrivial"] += 1
                 if kind != "aligned": stats["levels-mid-grapheme"] += 1
@@ -277,41 +320,362 @@ def shape_pairs(ctx, shim, r, ncases, ntexts):
     for key, lst in sorted(found.items(), key=lambda kv: str(kv[0])):
         lst.sort(key=lambda x: x[0])
         _, reg, q, reps, detail = lst[0]
+        if key[0] == "relabel-conflict":
+            stats["conflicting-settings-differences"] = stats.get("conflicting-settings-differences", 0) + len(lst)
+            stats["conflicting-settings-example"] = {"font": _font_name(reg), "map": q[1], "requests": list(q[5:]), "replies": [x[:400] for x in reps]}
+            continue     # reported separately, see aat_pair_requests
         if key[0] == "levels" and key[1] != "aligned":
             stats.setdefault("mid-grapheme-differences", 0)
             stats["mid-grapheme-differences"] += len(lst)
-            stats["mid-grapheme-example"] = {"font": reg, "requests": list(q[5:]), "replies": [x[:400] for x in reps]}
+            stats["mid-grapheme-example"] = {"font": _font_name(reg), "kind": key[1], "requests": list(q[5:]), "replies": [x[:400] for x in reps]}
             continue     # reported separately: a ranged feature bound inside a grapheme is outside the property's hypothesis
         ctx.violation(f"shape(): {'relabelling the input clusters changes ' + key[1] if key[0] == 'relabel' else 'the cluster level changes glyphs or positions (' + str(key[-1]) + ')' if key[0] == 'levels' else key[0]} "
-                      f"({len(lst)} request pairs, {len(set(x[1] for x in lst))} fonts; {detail})",
-                      {"stage": "search", "stream": "shape-" + key[0], "font_line": reg, "requests": list(q[5:]),
+                      f"({len(lst)} request pairs, {len(set(_font_name(x[1]) for x in lst))} fonts{'; generator ' + gen if gen else ''}; {detail}; requests {' | '.join(' '.join(x.split()[4:7] + x.split()[7:8] + x.split()[10:11]) for x in q[5:])})",
+                      {"stage": "search", "stream": "shape-" + key[0], "generator": gen or "corpus", "font_line": reg, "requests": list(q[5:]),
                        "map": q[1] if key[0] == "relabel" else None,
                        "cluster_map": [[c, q[2](c)] for c in sorted(set(q[3]))] if key[0] == "relabel" else None,
                        "kind": list(key), "observed": [x[:3000] for x in reps],
-                       "count": len(lst), "fonts": sorted(set(x[1].split()[2] for x in lst))[:40]})
-    ctx.note_search("shape-relabel", stats["relabel"], stats["relabel-nontrivial"], ranged_feature_pairs=stats["relabel-ranged"],
+                       "count": len(lst), "fonts": sorted(set(_font_name(x[1]) for x in lst))[:40]})
+    ctx.note_search("shape-relabel" + sfx, stats["relabel"], stats["relabel-nontrivial"], ranged_feature_pairs=stats["relabel-ranged"],
                     crashed_or_aborted=stats["crashed"],
+                    conflicting_settings_pairs=stats.get("relabel-conflicting-settings", 0),
+                    conflicting_settings_differences=stats.get("conflicting-settings-differences", 0),
+                    conflicting_settings_example=stats.get("conflicting-settings-example"),
                     violations_by_kind={str(k): len(v) for k, v in found.items() if k[0] != "levels"},
-                    rule="corpus (font, text, options) + shuffled / repeated / sliced / resampled / rtl-neutral texts, non-decreasing input "
-                         "clusters, random direction / level / flags, 0-2 extra ranged features with bounds at input cluster values; the "
+                    rule=(what_relabel or "corpus (font, text, options) + shuffled / repeated / sliced / resampled / rtl-neutral texts, non-decreasing input "
+                         "clusters, random direction / level / flags, 0-2 extra ranged features with bounds at input cluster values") + "; the "
                          "request is shaped again with clusters and feature ranges mapped by f (c+k, 3c+7, a*c+b, random gaps, c*c+c): "
                          "gids, flags, advances, offsets identical and clusters = f(clusters); non-trivial = more than one glyph")
-    ctx.note_search("shape-levels", stats["levels"], stats["levels-nontrivial"],
+    ctx.note_search("shape-levels" + sfx, stats["levels"], stats["levels-nontrivial"],
                     mid_grapheme_range_cases=stats["levels-mid-grapheme"],
                     mid_grapheme_differences=stats.get("mid-grapheme-differences", 0),
                     mid_grapheme_example=stats.get("mid-grapheme-example"),
                     violations_by_kind={str(k): len(v) for k, v in found.items() if k[0] == "levels"},
-                    rule="the same requests at the levels 0, 1 and 2: gids, advances and offsets identical in the same order "
+                    rule=(what_levels + "; " if what_levels else "") + "the same requests at the levels 0, 1 and 2: gids, advances and offsets identical in the same order "
                          "(clusters and flags may differ); requests whose ranged feature bounds may fall inside a grapheme are counted "
                          "and reported separately (mid_grapheme_*), they are outside the hypothesis of the statement")
     return found
+
+
+# ------------------------------------------------------------------------------------------------
+# structured Hangul (the Hangul shaper composes / decomposes / tags jamo / moves tone marks in preprocess_text)
+
+H_L = [(0x1100, 0x1112), (0x1113, 0x115E), (0x115F, 0x115F), (0xA960, 0xA97C)]     # modern, old, filler, extended-A
+H_V = [(0x1161, 0x1175), (0x1176, 0x11A7), (0x1160, 0x1160), (0xD7B0, 0xD7C6)]
+H_T = [(0x11A8, 0x11C2), (0x11C3, 0x11FF), (0xD7CB, 0xD7FB)]
+H_TONES = [0x302E, 0x302F]
+
+
+def _pick(r, classes, modern):
+    a, b = classes[0] if r.chance(modern, 8) else r.choice(classes[1:])
+    return r.range(a, b)
+
+
+def hangul_text(r):
+    """1-3 syllable chunks: <L,V>, <L,V,T> from modern (composable) or old / filler / extended jamo, precomposed LV / LVT,
+    <LV,T>, lone jamo; each followed by 0-2 tone marks; sometimes separated by a non-Hangul character"""
+    import C12
+    out = []
+    for _ in range(r.range(1, 3)):
+        k = r.below(10)
+        m = r.choice([8, 4, 4, 0])         # how modern the jamo of this chunk are
+        if k < 3: out += [_pick(r, H_L, m), _pick(r, H_V, m)]
+        elif k < 6: out += [_pick(r, H_L, m), _pick(r, H_V, m), _pick(r, H_T, m)]
+        elif k == 6: out += [C12.S_BASE + r.below(C12.L_COUNT * C12.V_COUNT) * C12.T_COUNT]
+        elif k == 7: out += [C12.S_BASE + r.below(C12.S_COUNT)]
+        elif k == 8: out += [C12.S_BASE + r.below(C12.L_COUNT * C12.V_COUNT) * C12.T_COUNT, _pick(r, H_T, m)]
+        else: out += [r.choice([_pick(r, H_L, m), _pick(r, H_V, m), _pick(r, H_T, m)])]
+        for _ in range(r.choice([0, 0, 1, 1, 1, 2])):
+            out.append(r.choice(H_TONES))
+        if r.chance(1, 5): out.append(r.choice([0x41, 0x20, 0x25CC, 0x3131]))
+    return out[:12]
+
+
+def hangul_pair_requests(r, per_font):
+    """per support variant of C12.FONTS (all syllables / none / LV only / LVT only / mixed / jamo missing / zero-width or
+    spacing tone marks / no dotted circle): structured texts, each at the three levels and under a relabelling"""
+    import C12
+    groups = []
+    for fname in sorted(C12.FONTS):
+        reg = [f"hangul font {fname} {C12.FONTS[fname]}"]
+        reqs = []
+        for _ in range(per_font):
+            cps = hangul_text(r)
+            cl = C02.input_clusters(r, len(cps), r.choice([0, 0, 1, 2, 3]))
+            d = r.choice(["l", "l", "l", "-", "r", "t"])
+            flags = r.choice([0, 0, 0x10, 3, 4])
+            mk = lambda cl_, lv_: " ".join(["shape", fname, d, "Hang", "-", str(flags), str(lv_), "-", "-", "-",
+                                           ",".join(f"{c:x}:{k}" for c, k in zip(cps, cl_))])
+            name, f = make_map(r)
+            lv = r.below(3)
+            reqs.append(("relabel", name, f, cl, False, mk(cl, lv), mk([f(x) for x in cl], lv)))
+            reqs.append(("levels", "aligned", None, cl, None, mk(cl, 0), mk(cl, 1), mk(cl, 2)))
+        groups.append((reg, reqs))
+    return groups
+
+
+def hangul_pre_lines(r, n):
+    """`hangul pre` hook requests (preprocess_text_hangul alone, crate and Lean model): the same structured text and support
+    spec at the three levels"""
+    import C12
+    lines = []
+    for _ in range(n):
+        cps = hangul_text(r)
+        cl = C02.input_clusters(r, len(cps), r.choice([0, 0, 1, 2, 3]))
+        spec = r.choice(sorted(C12.FONTS.values())) if r.chance(1, 2) else C12.rand_spec(r, cps)
+        nodc = 1 if r.chance(1, 5) else 0
+        for lv in (0, 1, 2):
+            lines.append(C12.pre_line(lv, nodc, spec, cps, cl))
+    return lines
+
+
+def hangul_pre_levels(ctx, shim, r, n):
+    """correspondence of the Hangul preprocess model at the three levels + crate-side oracle: the (code point, jamo feature)
+    sequence that comes out does not depend on the level (statement of Props/C15.lean, C15_hangul_levels_and_labels)"""
+    import C12
+    lines = hangul_pre_lines(r, n)
+    ctx.correspond("hangul-pre-levels", lines=lines, classify=C12.classify_pre)
+    outs = vlib.run_lines(shim, lines)
+    bad = []
+    for i in range(0, len(lines), 3):
+        reps = outs[i:i + 3]
+        ks = []
+        for x in reps:
+            p = C12.parse_pre(x)
+            ks.append(None if p is None else [(c, t) for c, _, t in p])
+        if not (ks[0] == ks[1] == ks[2]):
+            bad.append((len(lines[i]), lines[i:i + 3], reps))
+    bad.sort(key=lambda x: x[0])
+    for _, ls, reps in bad[:1]:
+        ctx.violation(f"preprocess_text_hangul: the cluster level changes the glyph sequence / jamo features ({len(bad)} texts): "
+                      f"{ls[0].split()[-1]} -> " + " | ".join(reps),
+                      {"stage": "search", "stream": "hangul-pre-levels", "requests": ls, "observed": reps, "count": len(bad)})
+    ctx.note_search("hangul-pre-levels", len(lines) // 3, len(lines) // 3, differences=len(bad),
+                    rule="structured Hangul texts x support specs through the preprocess hook at levels 0, 1, 2: code points and jamo "
+                         "features identical in the same order")
+
+
+# ------------------------------------------------------------------------------------------------
+# AAT: fonts with BOTH morx and feat (no corpus font has one), so that ranged user features reach the AAT map
+
+GAPPY = [1, 2, 3, 4]      # make_map kinds that leave gaps between consecutive labels (3c+7, a*c+b, random gaps, c*c+c)
+
+
+def relabel_morx_line(ln, f):
+    """`morx run ... I <dir> <level> <maxops> <maxlen> <feats> <glyphs>`: clusters of the glyph string and the bounds of
+    the ranged features mapped by f"""
+    t = ln.split(" ")
+    i = t.index("I")
+    if t[i + 5] != "-":
+        fs = []
+        for x in t[i + 5].split(","):
+            tag, v, a, b = x.split(":")
+            a, b = int(a), int(b)
+            if not (a == 0 and b == U32MAX):
+                a, b = f(a), f(b)
+            fs.append(f"{tag}:{v}:{a}:{b}")
+        t[i + 5] = ",".join(fs)
+    if t[i + 6] != "-":
+        t[i + 6] = ",".join(f"{g}:{f(int(c))}" for g, c in (x.split(":") for x in t[i + 6].split(",")))
+    return " ".join(t)
+
+
+def _morx_glyphs(rep):
+    """(successful, glyph string) of a `morx run` reply; the compiled chain flags after ` F ` hold `end - 1` values, which
+    are not images under f and are not compared"""
+    o = rep.split()
+    if not rep.startswith("ok") or len(o) < 4:
+        return None
+    gl = [] if o[3] == "-" else [tuple(int(v) for v in x.split(":")) for x in o[3].split(",")]
+    return o[1], gl
+
+
+def directed_morx_lines(shim, r, n, per_font=6):
+    """`morx run` requests on the directed fonts of aat_font (tags that really switch subtables), glyph strings with
+    ascending (consecutive / gapped / repeated) clusters and 1-3 ranged user features with bounds at cluster values"""
+    import C17
+    fm = featmap(shim)
+    lines = []
+    while len(lines) < n:
+        hexf, tags, _ = aat_font(r, fm)
+        rec = aat_font.recipe
+        for _ in range(per_font):
+            k = r.range(2, 9)
+            cl = C02.input_clusters(r, k, r.choice([0, 0, 0, 1, 2, 3]))
+            gs = ",".join(f"{1 + r.below(C17.NG - 1)}:{c}" for c in cl)
+            fs = []
+            for _ in range(r.range(1, 3)):
+                i = r.below(k); j = r.choice(list(range(i + 1, k)) + [None])
+                a = cl[i]; b = U32MAX if j is None else cl[j]
+                fs.append(f"{corpus.tag_hex(r.choice(tags))}:{r.choice([1, 1, 0])}:{a}:{b}")
+            lines.append(f"morx run {hexf} R {rec} I {r.choice(['l', 'l', 'r'])} {r.below(3)} - - {','.join(fs)} {gs}")
+    return lines[:n]
+
+
+def morx_relabel(ctx, shim, r, n):
+    """hook level (hb_aat_layout_substitute on generated morx + feat fonts, C17's generator): every request and its image
+    under a strictly increasing map with gaps — model vs crate on the relabelled requests, crate vs crate for the pair"""
+    import C17
+    base = C17.run_lines(r, n // 2, with_feat=True, per_font=4) + directed_morx_lines(shim, r, n - n // 2)
+    maps = [make_map(r, r.choice(GAPPY + [0])) for _ in base]
+    rel = [relabel_morx_line(ln, f) for ln, (_, f) in zip(base, maps)]
+    ctx.correspond("morx-run-relabelled", lines=rel, classify=C17.classify_run, canon=C17.canon)
+    oa = vlib.run_lines(shim, base, timeout=300)
+    ob = vlib.run_lines(shim, rel, timeout=300)
+    bad = []
+    nontriv = 0
+    for ln, ln2, (name, f), a, b in zip(base, rel, maps, oa, ob):
+        ga, gb = _morx_glyphs(a), _morx_glyphs(b)
+        if ga is None or gb is None:
+            if C17.canon(a).split(" F ")[0] != C17.canon(b).split(" F ")[0]:
+                bad.append((len(ln), ln, ln2, name, a, b, "replies differ"))
+            continue
+        if len(a.split()[5].split(",")) > 1: nontriv += 1
+        if ga[0] != gb[0] or [(g, f(c)) for g, c in ga[1]] != gb[1]:
+            what = "glyphs" if [g for g, _ in ga[1]] != [g for g, _ in gb[1]] else "cluster values"
+            bad.append((len(ln), ln, ln2, name, a, b, what))
+    # contradicting overlapping settings of one AAT feature type: resolved by activation order (see aat_pair_requests);
+    # counted and reported separately
+    fm = {corpus.tag_hex(t[0]): t[1:] for t in featmap(shim)}
+    def conflicting(ln):
+        t = ln.split(); fs = t[t.index("I") + 5]
+        fl = [x.split(":") for x in fs.split(",")] if fs != "-" else []
+        for i1, (t1, v1, a1, b1) in enumerate(fl):
+            for t2, v2, a2, b2 in fl[i1 + 1:]:
+                if t1 in fm and t2 in fm and fm[t1][0] == fm[t2][0] and int(a1) < int(b2) and int(a2) < int(b1):
+                    if (fm[t1][1] if int(v1) else fm[t1][2]) != (fm[t2][1] if int(v2) else fm[t2][2]): return True
+        return False
+    confl = [x for x in bad if conflicting(x[1])]
+    bad = [x for x in bad if not conflicting(x[1])]
+    bad.sort(key=lambda x: x[0])
+    seen = set()
+    for _, ln, ln2, name, a, b, what in bad:
+        if what in seen: continue
+        seen.add(what)
+        i = ln.split().index("I")
+        ctx.violation(f"morx (hb_aat_layout_substitute): relabelling the clusters by {name} changes {what} ({len(bad)} request pairs): "
+                      f"{' '.join(ln.split()[i + 1:])} -> {a.split(' F ')[0]}  but  {' '.join(ln2.split()[i + 1:])} -> {b.split(' F ')[0]}",
+                      {"stage": "search", "stream": "morx-relabel", "request": ln, "relabelled_request": ln2, "map": name,
+                       "observed": a[:2000], "observed_relabelled": b[:2000], "count": len(bad)})
+    ctx.note_search("morx-relabel", len(base), nontriv, deviations=len(bad), conflicting_settings_differences=len(confl),
+                    conflicting_settings_example=({"request": confl[0][1][-200:], "relabelled": confl[0][2][-200:], "map": confl[0][3],
+                                                   "replies": [confl[0][4][:300], confl[0][5][:300]]} if confl else None),
+                    rule="half: C17's generated morx + feat fonts (all five subtable kinds, random feature tables); half: directed fonts in "
+                         "which 2-4 tags really switch subtables (see shape-relabel/aat); glyph strings with ascending / descending / "
+                         "repeated / random clusters, 0-3 user features (global, [a,a+k), [a,end), [0,a)), 4 directions, 3 levels; the "
+                         "request and its image under c+k / 3c+7 / a*c+b / random gaps / c*c+c (clusters and feature bounds) through the "
+                         "substitute hook: same success flag and glyph ids, clusters = f(clusters); non-trivial = a chain compiled to "
+                         "more than one range")
+
+
+_featmap = None
+
+
+def featmap(shim):
+    """[(ot tag, aat feature type, selector to enable, selector to disable)] as the crate has it (`morx featmap` hook)"""
+    global _featmap
+    if _featmap is None:
+        out = vlib.run_lines(shim, ["morx featmap"], nproc=1)[0]
+        _featmap = []
+        for t in out.split():
+            p = t.split(":")
+            if len(p) == 4:
+                _featmap.append((int(p[0]).to_bytes(4, "big").decode("latin1"), int(p[1]), int(p[2]), int(p[3])))
+    return _featmap
+
+
+def aat_font(r, fm):
+    """a morx + feat font in which 2-4 OpenType tags really switch subtables: tag i owns the flag bit 2<<i; its AAT
+    (type, selector-to-enable) sets the bit, (type, selector-to-disable) clears it; 1-5 subtables (non-contextual most
+    often, also contextual / ligature / rearrangement) are keyed to one of the bits or to the always-on bit 1.
+    Returns (font hex, tags, {aat type: exclusive})"""
+    import C17
+    tags = []
+    for t in r.shuffle(fm):
+        if len(tags) < r.range(2, 4) and t[0] != "aalt":
+            tags.append(t)
+    chains = []
+    for _ in range(r.choice([1, 1, 2])):
+        feats, default = [], 1
+        for i, (tag, ty, on, off) in enumerate(tags):
+            bit = 2 << i
+            feats.append((ty, on, bit, 0xFFFFFFFF))
+            feats.append((ty, off, 0, 0xFFFFFFFF ^ bit))
+            if r.chance(1, 3): default |= bit
+        subs = []
+        for _ in range(r.range(1, 5)):
+            st = C17.rand_subtable(r, (4, 4, 4, 4, 1, 2, 0), wf=True)
+            st["flags"] = r.choice([2 << r.below(len(tags)), 2 << r.below(len(tags)), 1, (2 << r.below(len(tags))) | (2 << r.below(len(tags)))])
+            st["coverage"] = st["coverage"] & 0x7F     # horizontal
+            subs.append(st)
+        chains.append({"default": default, "features": r.shuffle(feats) if r.chance(1, 4) else feats, "subtables": subs})
+    morx, tok = C17.build_morx(r, chains, C17.NG)
+    rows = sorted({ty: (ty, max(on, off) + 1, r.chance(1, 2)) for _, ty, on, off in tags}.values())
+    ftok = [C17.NG, 1, len(rows)]
+    for ty, ns, ex in rows:
+        ftok += [ty, ns, 1 if ex else 0]
+    aat_font.recipe = " ".join(map(str, ftok + tok))      # the same tables as tokens, for the Lean driver (`morx run`)
+    return C17.build_font(C17.NG, morx, C17.build_feat(rows)).hex(), [t[0] for t in tags], {ty: ex for ty, _, ex in rows}
+
+
+def aat_pair_requests(shim, r, nfonts, per_font):
+    """texts over the font's letters with 1-3 ranged user features (bounds at input cluster values) x {the three levels;
+    two relabellings, one of them always with gaps}"""
+    import C17
+    fm = featmap(shim)
+    other = ["kern", "liga", "smcp", "zero", "calt"]
+    groups = []
+    for k in range(nfonts):
+        hexf, tags, excl = aat_font(r, fm)
+        fid = f"A{k}"
+        reqs = []
+        for _ in range(per_font):
+            n = r.range(2, 9)
+            text = [0x61 + r.below(C17.NG - 1) for _ in range(n)]
+            cl = C02.input_clusters(r, n, r.choice([0, 0, 0, 1, 2, 3]))
+            starts = [i for i in range(n) if i == 0 or cl[i - 1] < cl[i]]
+            feats = []
+            for _ in range(r.range(1, 3)):
+                i = r.choice(starts); j = r.choice([x for x in starts if x > i] + [None])
+                a = cl[i]; b = U32MAX if j is None else cl[j]
+                if a == cl[0] and b == U32MAX and r.chance(1, 2): a = 0
+                feats.append((r.choice(tags) if r.chance(5, 6) else r.choice(other), r.choice([1, 1, 0]), a, b))
+            # two overlapping settings of one AAT feature that contradict each other (same type; exclusive, or the same
+            # even/odd selector pair): hb_aat_map_builder_t::compile keeps the one that became active first, ties by list
+            # order - "first" compares a ranged start with the sentinel start 0 of a global feature numerically
+            conflict = False
+            sel = {t[0]: (t[1], t[2], t[3]) for t in fm}
+            for i1, (t1, v1, a1, b1) in enumerate(feats):
+                for t2, v2, a2, b2 in feats[i1 + 1:]:
+                    if t1 in sel and t2 in sel and sel[t1][0] == sel[t2][0] and a1 < b2 and a2 < b1:
+                        s1 = sel[t1][1] if v1 else sel[t1][2]; s2 = sel[t2][1] if v2 else sel[t2][2]
+                        if s1 != s2 and (excl.get(sel[t1][0]) or (s1 & ~1) == (s2 & ~1)): conflict = True
+            d = r.choice(["l", "l", "l", "r", "-"])
+            flags = r.choice([0, 0, 3])
+            mk = lambda cl_, feats_, lv_: " ".join(["shape", fid, d, "-", "-", str(flags), str(lv_),
+                                                     ",".join(f"{corpus.tag_hex(t)}:{v}:{x}:{y}" for t, v, x, y in feats_), "-", "-",
+                                                     ",".join(f"{c:x}:{q}" for c, q in zip(text, cl_))])
+            lv = r.below(3)
+            for kind in (r.choice(GAPPY), None):
+                name, f = make_map(r, kind)
+                reqs.append(("relabel", name, f, cl, "conflict" if conflict else True, mk(cl, feats, lv),
+                             mk([f(x) for x in cl], map_feats(feats, f), lv)))
+            reqs.append(("levels", "aligned", None, cl, None, mk(cl, feats, 0), mk(cl, feats, 1), mk(cl, feats, 2)))
+        groups.append(([f"font {fid} {hexf}"], reqs))
+    return groups
 
 
 def run(ctx):
     ctx.assumptions += [
         "theorems are about the Lean model of the buffer primitives (Buf.lean) and the cluster pipeline pieces (Cluster.lean); the tie "
         "to the crate is the cluster-prims-relabelled correspondence stream (and C02's cluster-prims stream)",
-        "shapers, GSUB/GPOS/morx interpreters are not modelled here: for them the property rests on the paired shape() search",
+        "of the shapers' own code two pieces that look at clusters / the level are covered by theorems on their models: Hangul "
+        "preprocessing (C15_hangul_levels_and_labels; tie: hangul-pre-levels) and the morx non-contextual feature-range lookup "
+        "(C15_enabledAt_relabel, C15_relabel_noncontextual; tie: morx-run-relabelled); the other shapers and the GSUB/GPOS "
+        "interpreters rest on the paired shape() search (corpus fonts; structured Hangul; generated morx+feat fonts)",
+        "outside the hypothesis, counted and shown in the evidence: ranged feature bounds inside a grapheme (OpenType) or inside a "
+        "cluster that an earlier morx subtable merges at levels 0/1 (morx looks ranges up by the cluster a glyph carries when "
+        "the subtable runs); two overlapping contradicting settings of one AAT feature (resolved by activation order)",
         "relabelling commutes exactly except for records zero-padded by Vec::resize, which are not relabelled (dead slots)",
     ]
     ctx.regen()
@@ -319,10 +683,31 @@ def run(ctx):
     shim = vlib.build_harness()
     prim_relabel(ctx, shim, ctx.rng("prims"), ctx.budget(20000, 300000))
     shape_pairs(ctx, shim, ctx.rng("shape"), ctx.budget(400, 2128), ctx.budget(4, 16))
+    hangul_pre_levels(ctx, shim, ctx.rng("hangul-pre"), ctx.budget(3000, 60000))
+    eval_pairs(ctx, shim, hangul_pair_requests(ctx.rng("hangul"), ctx.budget(300, 6000)), gen="hangul",
+               what_relabel="structured Hangul texts (old / modern / extended jamo, composable and not, precomposed syllables, <LV,T>, "
+                            "0-2 tone marks per chunk) on 11 support variants (tone marks spacing or zero-width, with / without "
+                            "U+25CC), direction l/r/t/guessed, flags",
+               what_levels="the same structured Hangul requests")
+    morx_relabel(ctx, shim, ctx.rng("morx"), ctx.budget(4000, 60000))
+    eval_pairs(ctx, shim, aat_pair_requests(shim, ctx.rng("aat"), ctx.budget(150, 2000), ctx.budget(12, 24)), gen="aat",
+               what_relabel="generated AAT fonts with morx AND feat in which 2-4 OpenType tags switch subtables (non-contextual, "
+                            "contextual, ligature, rearrangement; 1-2 chains), texts of 2-9 letters, consecutive / gapped / repeated "
+                            "input clusters, 1-3 ranged user features with bounds at input cluster values, two maps per request (one "
+                            "always with gaps)",
+               what_levels="the same AAT requests", runtime_clusters=True)
 
 
 def replay(ctx, rp):
     shim = vlib.build_harness()
+    if rp.get("stream") == "hangul-pre-levels":
+        import C12
+        o = vlib.run_lines(shim, rp["requests"], nproc=1)
+        ks = []
+        for q, x in zip(rp["requests"], o):
+            print("request:", q); print("reply  :", x)
+            p = C12.parse_pre(x); ks.append(None if p is None else [(c, t) for c, _, t in p])
+        return 0 if ks[0] == ks[1] == ks[2] else 1
     if rp.get("stream") == "prims-relabel":
         a, b = vlib.run_lines(shim, [rp["request"], rp["relabelled_request"]], nproc=1)
         print("request    :", rp["request"]); print("reply      :", a[:3000])
@@ -330,10 +715,11 @@ def replay(ctx, rp):
         print("map:", rp["map"], "(recorded deviation:", rp["deviation"], ")")
         return 1
     if rp.get("stream", "").startswith("shape-"):
-        o = vlib.run_groups(shim, [[rp["font_line"]] + rp["requests"]], nproc=1)[0]
-        print("font:", rp["font_line"])
+        fl = rp["font_line"] if isinstance(rp["font_line"], list) else [rp["font_line"]]
+        o = vlib.run_groups(shim, [fl + rp["requests"]], nproc=1)[0]
+        print("font:", [x[:200] for x in fl])
         gls = []
-        for q, x in zip(rp["requests"], o[1:]):
+        for q, x in zip(rp["requests"], o[len(fl):]):
             print("request:", q); print("reply  :", x[:3000]); gls.append(C02.parse_shape(x))
         if any(g is None for g in gls): return 1
         if rp["stream"] == "shape-levels":
